@@ -1468,6 +1468,59 @@ def stream_helpers(ctx):
                         s.violate('HubbardSquareLattice helper disagrees with the lattice geometry', c, {'first': bad[:3]})
                 except Exception as e:  # noqa: BLE001
                     s.violate('HubbardSquareLattice helper raised', c, repr(e))
+    # documented rejections (ValueError / OrbitalSpecificationError) and thin wrappers
+    from openfermion.utils import Grid, SpinPairs
+    from openfermion.utils.grid import OrbitalSpecificationError
+    from openfermion.hamiltonians import jellium as jm
+    lat = HubbardSquareLattice(3, 3)
+    lat1 = HubbardSquareLattice(2, 2, n_dofs=2)
+    rejections = [
+        ('onsite tunneling between the same dof', lambda: of.FermiHubbardModel(lat, tunneling_parameters=[('onsite', (0, 0), 1.0)]), ValueError),
+        ('interaction parameter of length 2', lambda: of.FermiHubbardModel(lat, interaction_parameters=[(0, 0)]), ValueError),
+        ('interaction parameter of length 5', lambda: of.FermiHubbardModel(lat, interaction_parameters=[(0,) * 5]), ValueError),
+        ('onsite same-dof same-spin interaction', lambda: of.FermiHubbardModel(lat, interaction_parameters=[('onsite', (0, 0), 1.0, SpinPairs.SAME)]), ValueError),
+        ('unknown edge type', lambda: of.FermiHubbardModel(lat, tunneling_parameters=[('banana', (0, 0), 1.0)]), ValueError),
+        ('dof out of range', lambda: of.FermiHubbardModel(lat, potential_parameters=[(1, 1.0)]), ValueError),
+        ('dof pair out of range', lambda: of.FermiHubbardModel(lat1, tunneling_parameters=[('neighbor', (0, 2), 1.0)]), ValueError),
+        ('site_pairs_iter of an unknown edge type', lambda: list(lat.site_pairs_iter('banana')), ValueError),
+        ('spin_pairs_iter of an unknown specification', lambda: list(lat.spin_pairs_iter('banana')), ValueError),
+        ('Grid with dimension 0', lambda: Grid(0, 2, 1.0), ValueError),
+        ('Grid with a negative length', lambda: Grid(1, -1, 1.0), ValueError),
+        ('Grid with an integer scale', lambda: Grid(1, 2, 1), ValueError),
+        ('Grid with a negative scale', lambda: Grid(1, 2, -1.0), ValueError),
+        ('position_vector outside the grid', lambda: Grid(2, 3, 1.0).position_vector((1, 3)), OrbitalSpecificationError),
+        ('momentum_vector outside the grid', lambda: Grid(2, 3, 1.0).momentum_vector((3, 0)), OrbitalSpecificationError),
+        ('orbital_id outside the grid', lambda: Grid(2, 3, 1.0).orbital_id((0, 3)), OrbitalSpecificationError),
+        ('grid_indices of a qubit outside the register', lambda: Grid(2, 3, 1.0).grid_indices(9, True), OrbitalSpecificationError),
+        ('grid_indices of a negative qubit', lambda: Grid(2, 3, 1.0).grid_indices(-1, False), OrbitalSpecificationError),
+        ('wigner_seitz_length_scale in dimension 0', lambda: jm.wigner_seitz_length_scale(1.0, 1, 0), ValueError),
+        ('hypercube grid with filling > 1', lambda: jm.hypercube_grid_with_given_wigner_seitz_radius_and_filling(1, 2, 1.0, 1.5), ValueError),
+        ('hypercube grid without particles', lambda: jm.hypercube_grid_with_given_wigner_seitz_radius_and_filling(1, 2, 1.0, 0.1), ValueError),
+    ]
+    for label, call, exc in rejections:
+        c = {'call': 'documented rejection', 'input': label}
+        s.case(c)
+        s.count('oracle:rejections')
+        try:
+            call()
+            s.violate('an invalid input is accepted', c, None)
+        except exc:
+            pass
+        except Exception as e:  # noqa: BLE001
+            s.violate('an invalid input raises an undocumented exception', c, repr(e))
+    for L, scale in (([3], 1.5), ([2, 2], 1.0)):
+        g = Grid(len(L), tuple(L), scale)
+        for spinless in (True, False):
+            c = {'call': 'dual_basis_kinetic / dual_basis_potential', 'length': L, 'spinless': spinless}
+            s.case(c)
+            try:
+                if jm.dual_basis_kinetic(g, spinless) != jm.dual_basis_jellium_model(g, spinless, True, False) or \
+                        jm.dual_basis_potential(g, spinless) != jm.dual_basis_jellium_model(g, spinless, False, True) or \
+                        exact_terms(jm.dual_basis_kinetic(g, spinless) + jm.dual_basis_potential(g, spinless)) != \
+                        exact_terms(jm.dual_basis_jellium_model(g, spinless)):
+                    s.violate('dual_basis_kinetic + dual_basis_potential is not dual_basis_jellium_model', c, None)
+            except Exception as e:  # noqa: BLE001
+                s.violate('dual_basis_kinetic / dual_basis_potential raised', c, repr(e))
     orc.flush()
     return s
 
